@@ -175,10 +175,24 @@ POOL = (ASCII + [" "] * 6 + ["&", "<", ">", '"', "'", "&amp;", "&lt;", "&#38;",
 POOL_C2 = POOL + C2 * 3
 
 
-def adv_string(rng, maxlen=10, c2=0.15):
-    """c2: probability that characters of the U+0080..U+00BF class (defect #16) may occur"""
+# offsets around every power of two up to 4096: scan windows, block sizes, buffer capacities (C07-seed5: a 1024-byte
+# scan window in write_escaped whose end was mistaken for a found lead byte)
+BOUNDARY = [2 ** j + d for j in range(3, 13) for d in (-1, 0, 1)]
+
+
+def adv_string(rng, maxlen=10, c2=0.15, big=False):
+    """c2: probability that characters of the U+0080..U+00BF class (defect #16) may occur;
+    big: also produce runs with a special character at a boundary offset (up to 4097) from the start / the previous special"""
     pool = POOL_C2 if rng.random() < c2 else POOL
     r = rng.random()
+    if big and r < 0.15 and rng.random() < 0.4:
+        fill = rng.choice(["a", "a", "a", "x", " ", "é", "€"])
+        sp = ["&", "<", ">", '"', "\u00a0", "\u00c0"] + (["\u00a9", "\u0080"] if pool is POOL_C2 else [])
+        out = []
+        for _ in range(rng.choice([1, 1, 2, 3])):
+            out.append(fill * rng.choice(BOUNDARY) + rng.choice(sp))
+        out.append(fill * rng.choice([0, 1, 2, rng.choice(BOUNDARY)]))
+        return "".join(out)
     if r < 0.15:
         # long run crossing memchr lanes with one special somewhere
         n = rng.choice([15, 16, 17, 31, 32, 33, 63, 64, 65, 100])
@@ -503,7 +517,7 @@ def run(ck):
         for c in ASCII + C2 + [" "]:
             strings += [(0, c), (1, c), (0, "a" + c + "b"), (1, c + c)]
         for _ in range(ns_):
-            strings.append((rng.randrange(2), adv_string(rng, 12)))
+            strings.append((rng.randrange(2), adv_string(rng, 12, big=True)))
         vtrees = [(rng.randrange(2), vocab_tree(rng, vocab, rng.choice([1, 2, 3, 4]))) for _ in range(nv)]
         atrees = [(rng.randrange(2), ("E", rng.choice(["h", "s", "m"]), rng.choice(ANY_NAMES[6:]), [],
                                      [any_tree(rng, 3, c2) for _ in range(rng.choice([1, 2, 3]))]))
